@@ -158,64 +158,73 @@ def hmac_keyblock_events(ck_ob, f, label, mask, keyarg, lenarg, tagname, statear
         ex = irx.Exec(f, Handler(), havoc="auto", auto=True, arg_consts=ac, pre_conds=pre, split_max=4)
         paths = ex.run()
         no_data_branches(f, paths)
+        if consts.get(lenarg) != 0:
+            # a null key pointer with a non-zero length is outside the contract (the key points to keylen bytes): such a path is no class
+            knull = "arg:%d" % keyarg
+            paths = [p for p in paths if not any(len(c_) == 3 and repr(c_[1]) == knull and ((c_[0] == "ne" and c_[2] is False) or (c_[0] == "eq" and c_[2] is True))
+                                                 for c_ in getattr(p, "conds", []))]
         rets = [p for p in paths if p.end[0] == "ret"]
-        if len(paths) != 1 or len(rets) != 1:
+        if not rets or len(rets) != len(paths) or len(paths) > 4:
             raise Broken("HMAC %s: key length class %s does not give one straight path (%d paths; ends %s): loop not resolved or data-dependent control"
                          % (tagname, cname, len(paths), [p.end[0] for p in paths][:4]))
-        p = rets[0]
-        ev_all = calls(p)
-        # wipes of local temporaries are not part of the hashing sequence: they are collected (with their position) and required as a
-        # set - the key block must be wiped after it was absorbed, wherever the statement stands; a wipe before the use shows in the data
-        # (a temporary is whatever is not reached through a parameter: a local, or - C19's matter, not this rule's - a static buffer)
-        wipes = [(i_, e) for i_, e in enumerate(ev_all) if e[2] == "tinyjambu_clean" and not e[3][0].startswith("arg")]
-        ev = [e for e in ev_all if not (e[2] == "tinyjambu_clean" and not e[3][0].startswith("arg"))]
-        pos_of = {id(e): i_ for i_, e in enumerate(ev_all)}
-        if expect_prefix:
-            ev = expect_prefix(p, ev, cname)
-            if ev is None:
+        # (more than one path in a class: classes the code itself distinguishes beyond the key length - a null key pointer, an alignment -
+        # every one of them must set the documented key block up)
+        cname0 = cname
+        for pi_, p in enumerate(rets):
+            cname = cname0 if pi_ == 0 else "%s;path-class-%d" % (cname0, pi_ + 1)
+            ev_all = calls(p)
+            # wipes of local temporaries are not part of the hashing sequence: they are collected (with their position) and required as a
+            # set - the key block must be wiped after it was absorbed, wherever the statement stands; a wipe before the use shows in the data
+            # (a temporary is whatever is not reached through a parameter: a local, or - C19's matter, not this rule's - a static buffer)
+            wipes = [(i_, e) for i_, e in enumerate(ev_all) if e[2] == "tinyjambu_clean" and not e[3][0].startswith("arg")]
+            ev = [e for e in ev_all if not (e[2] == "tinyjambu_clean" and not e[3][0].startswith("arg"))]
+            pos_of = {id(e): i_ for i_, e in enumerate(ev_all)}
+            if expect_prefix:
+                ev = expect_prefix(p, ev, cname)
+                if ev is None:
+                    continue
+            if local_state:
+                # the HMAC object is a local of f (the one-shot function): its name is taken from the first hash call
+                h0_ = [e for e in ev if e[2].startswith("tinyjambu_hash_")]
+                if not h0_ or not h0_[0][3][0].startswith("alloca"):
+                    raise Broken("%s: the hashing sequence does not start on a local state: this shape is not analysed" % f.name)
+                S = h0_[0][3][0]
+            var = [e for e in p.events if e[0] == "VARMEM"]
+            c(not var, "%s-resolved(%s)" % (tagname, cname), "all copies have constant lengths in this class", "variable-length copy not resolved in class %s: %s" % (cname, [e[3] for e in var][:2]))
+            if cname0 == "len>64":
+                pre_ev, rest = ev[:3], ev[3:]
+                okp = len(pre_ev) == 3 and [e[2] for e in pre_ev] == ["tinyjambu_hash_init", "tinyjambu_hash_update", "tinyjambu_hash_finalize"] \
+                    and pre_ev[0][3][0] == S and pre_ev[1][3] == (S, repr(Lf.s(KEY)), repr(Lf.s(("n", lenarg)))) and pre_ev[2][3][0] == S
+                c(okp, "%s-long-key-hashed" % tagname, "keys longer than 64 bytes are first hashed: init; update(key, keylen); finalize(tmp)",
+                  "long-key preprocessing is not init; update(key,keylen); finalize: %s" % [(e[2], e[3]) for e in pre_ev])
+                if not okp:
+                    continue
+                keybytes = bytes_sym("DIGEST", pre_ev[2][1], 32)
+                n = 32
+            else:
+                rest = ev
+                n = consts[lenarg]
+                keybytes = inbytes(KEY, n)
+            want = xor_const(keybytes, mask) + const_bytes(mask, BLOCK - n)
+            ok3 = len(rest) >= 2 and [e[2] for e in rest[:2]] == ["tinyjambu_hash_init", "tinyjambu_hash_update"]
+            c(ok3, "%s-sequence(%s)" % (tagname, cname), "key block: hash_init; hash_update(block, 64) (and the block wiped afterwards)",
+              "key block set-up is %s, expected hash_init; hash_update(block,64)" % [e[2] for e in rest[:4]])
+            if not ok3:
                 continue
-        if local_state:
-            # the HMAC object is a local of f (the one-shot function): its name is taken from the first hash call
-            h0_ = [e for e in ev if e[2].startswith("tinyjambu_hash_")]
-            if not h0_ or not h0_[0][3][0].startswith("alloca"):
-                raise Broken("%s: the hashing sequence does not start on a local state: this shape is not analysed" % f.name)
-            S = h0_[0][3][0]
-        var = [e for e in p.events if e[0] == "VARMEM"]
-        c(not var, "%s-resolved(%s)" % (tagname, cname), "all copies have constant lengths in this class", "variable-length copy not resolved in class %s: %s" % (cname, [e[3] for e in var][:2]))
-        if cname == "len>64":
-            pre_ev, rest = ev[:3], ev[3:]
-            okp = len(pre_ev) == 3 and [e[2] for e in pre_ev] == ["tinyjambu_hash_init", "tinyjambu_hash_update", "tinyjambu_hash_finalize"] \
-                and pre_ev[0][3][0] == S and pre_ev[1][3] == (S, repr(Lf.s(KEY)), repr(Lf.s(("n", lenarg)))) and pre_ev[2][3][0] == S
-            c(okp, "%s-long-key-hashed" % tagname, "keys longer than 64 bytes are first hashed: init; update(key, keylen); finalize(tmp)",
-              "long-key preprocessing is not init; update(key,keylen); finalize: %s" % [(e[2], e[3]) for e in pre_ev])
-            if not okp:
-                continue
-            keybytes = bytes_sym("DIGEST", pre_ev[2][1], 32)
-            n = 32
-        else:
-            rest = ev
-            n = consts[lenarg]
-            keybytes = inbytes(KEY, n)
-        want = xor_const(keybytes, mask) + const_bytes(mask, BLOCK - n)
-        ok3 = len(rest) >= 2 and [e[2] for e in rest[:2]] == ["tinyjambu_hash_init", "tinyjambu_hash_update"]
-        c(ok3, "%s-sequence(%s)" % (tagname, cname), "key block: hash_init; hash_update(block, 64) (and the block wiped afterwards)",
-          "key block set-up is %s, expected hash_init; hash_update(block,64)" % [e[2] for e in rest[:4]])
-        if not ok3:
-            continue
-        i_, u_ = rest[:2]
-        cl_ = None
-        for wi_, w_ in wipes:
-            if w_[3][0] == u_[3][1] and wi_ > pos_of[id(u_)]:
-                cl_ = w_
-        if cl_ is None:
-            cl_ = (None, None, None, ("(no wipe of the block after it was absorbed)", "-"))
-        c(i_[3][0] == S and u_[3][0] == S, "%s-state(%s)" % (tagname, cname), "the inner hash state of this HMAC object is used", "hash calls use %s / %s instead of the object's hash state" % (i_[3][0], u_[3][0]))
-        okd = u_[4] is not None and len(u_[4]) == BLOCK and all(tuple(x) == tuple(y) for x, y in zip(u_[4], want))
-        c(okd and u_[3][2] == "64", "%s-block(%s)" % (tagname, cname),
-          "64-byte block absorbed = (key ^ 0x%02X) for %d key byte(s), 0x%02X for the other %d" % (mask, n, mask, BLOCK - n),
-          "block absorbed for key-length class %s differs from (key ^ 0x%02X) || 0x%02X-padding: %s" % (cname, mask, mask, first_byte_diff(u_[4], want)), relpath(f.insts[u_[5]].where))
-        c(cl_[3][0] == u_[3][1] and cl_[3][1] == "64", "%s-wiped(%s)" % (tagname, cname), "the key block is wiped (64 bytes)", "key block not wiped: clean(%s, %s)" % cl_[3][:2])
-        out[cname] = (p, list(rest[2:]), [w_ for _wi, w_ in wipes]) if not local_state else (p, list(rest[2:]), [w_ for _wi, w_ in wipes], S, [e for e in ev_all if e[2] in ("tinyjambu_hmac_free", "tinyjambu_clean")])
+            i_, u_ = rest[:2]
+            cl_ = None
+            for wi_, w_ in wipes:
+                if w_[3][0] == u_[3][1] and wi_ > pos_of[id(u_)]:
+                    cl_ = w_
+            if cl_ is None:
+                cl_ = (None, None, None, ("(no wipe of the block after it was absorbed)", "-"))
+            c(i_[3][0] == S and u_[3][0] == S, "%s-state(%s)" % (tagname, cname), "the inner hash state of this HMAC object is used", "hash calls use %s / %s instead of the object's hash state" % (i_[3][0], u_[3][0]))
+            okd = u_[4] is not None and len(u_[4]) == BLOCK and all(tuple(x) == tuple(y) for x, y in zip(u_[4], want))
+            c(okd and u_[3][2] == "64", "%s-block(%s)" % (tagname, cname),
+              "64-byte block absorbed = (key ^ 0x%02X) for %d key byte(s), 0x%02X for the other %d" % (mask, n, mask, BLOCK - n),
+              "block absorbed for key-length class %s differs from (key ^ 0x%02X) || 0x%02X-padding: %s" % (cname, mask, mask, first_byte_diff(u_[4], want)), relpath(f.insts[u_[5]].where))
+            c(cl_[3][0] == u_[3][1] and cl_[3][1] == "64", "%s-wiped(%s)" % (tagname, cname), "the key block is wiped (64 bytes)", "key block not wiped: clean(%s, %s)" % cl_[3][:2])
+            out[cname] = (p, list(rest[2:]), [w_ for _wi, w_ in wipes]) if not local_state else (p, list(rest[2:]), [w_ for _wi, w_ in wipes], S, [e for e in ev_all if e[2] in ("tinyjambu_hmac_free", "tinyjambu_clean")])
     return out
 
 
@@ -295,7 +304,7 @@ def check_hmac(ck_ob, mod, label):
             if len(rest) < 2 or names_[0] not in ("tinyjambu_hmac_update", "tinyjambu_hash_update") or names_[1] != "tinyjambu_hmac_finalize":
                 raise Broken("tinyjambu_hmac (one-shot), key length class %s: after the inner key block the calls are %s: this shape is not analysed" % (cname, names_))
             okd = rest[0][3] == (S_, repr(Lf.s(("arg", 3))), repr(Lf.s(("n", 4))))
-            KLc = cname.split("=")[1] if cname.startswith("len=") else KL       # in a key-length class the length argument is that constant
+            KLc = cname.split("=")[1].split(";")[0] if cname.startswith("len=") else KL       # in a key-length class the length argument is that constant
             okf = rest[1][3] == (S_, K, KLc, repr(Lf.s(("arg", 0))))
             size_ = str(mod.typedef_size("tinyjambu_hmac_state_t"))
             okw = any((e[2] == "tinyjambu_hmac_free" and e[3] == (S_,)) or (e[2] == "tinyjambu_clean" and e[3][:2] == (S_, size_)) for e in frees_) and len(rest) <= 3 \
@@ -1013,6 +1022,32 @@ def check_pbkdf2_small(ck_ob, mod, label, thorough=False):
 
 
 
+def _count_narrowings(c, f, ps, COUNT, ci):
+    """the iteration count truncated to fewer than 32 bits on a path that establishes no bound for it: the PRF chain then has count mod 2^w
+    links.  A bound can only come from a comparison of the count with a constant above 255: where the function has none, no path has one"""
+    seen = set()
+    bounded = False
+    for J in f.insts:
+        if J.op == "icmp" and any(isinstance(o, (list, tuple)) and tuple(o) == ("a", ci) for o in J.ops):
+            for o in J.ops:
+                if isinstance(o, (list, tuple)) and o and o[0] == "c":
+                    try:
+                        bounded = bounded or int(o[1]) > 255
+                    except (TypeError, ValueError):
+                        bounded = True
+    for p in ps:
+        for e in p.events:
+            if e[0] != "narrowing" or e[1] in seen or e[2] >= 32 or e[3] != COUNT:
+                continue
+            if len(e) > 4 and e[4] and bounded:
+                continue        # (inside a loop, and the function does compare the count with a large constant: left to the shape rules)
+            seen.add(e[1])
+            I = f.insts[e[1]]
+            c("F", False, "count-narrowed#%s" % I.id, "",
+              "the iteration count is truncated to %d bits with no bound established on this path: for counts >= 2^%d the chain has count mod 2^%d links" % (e[2], e[2], e[2]),
+              where=relpath(I.where))
+
+
 def check_pbkdf2(ck_ob, mod, label):
     f = mod.fn("tinyjambu_pbkdf2")
     w0 = relpath("%s:%d" % (f.file, f.line))
@@ -1039,6 +1074,7 @@ def check_pbkdf2(ck_ob, mod, label):
     ex = irx.Exec(f, Handler(), havoc="auto", auto=True, split_max=32, word_phis=wp, fresh_per_entry=True)
     ps = ex.run(max_paths=4000)
     no_data_branches(f, ps)
+    _count_narrowings(c, f, ps, COUNT, f.param_index("count"))
     if any(e[2] == "tinyjambu_hash" for p_ in ps for e in calls(p_)):
         # (keying with the digest of a long password is keying with the password; whether it is done only for passwords longer than the
         # HMAC block, and the digest kept intact, is decided by the small-length rule)
